@@ -1,4 +1,4 @@
-import RV.C10.Translate
+import RV.C10.WhereAlg
 /-
   C10 — property statements and theorems.
 
@@ -1062,5 +1062,192 @@ example :
     let op : Op := .insertData [((.label 50, .const (.iri 4), .const (.iri 2)), .dflt)]
     (runRequest plainGraph [op] (runRequest plainGraph [op] ⟨[], [], 0⟩).st).st.quads =
       [(.fresh 0, .iri 4, .iri 2, none), (.fresh 1, .iri 4, .iri 2, none)] := by decide
+
+/-! ### WHERE clauses of the full algebra: the solutions are those SPARQL 1.1 §18 defines
+
+  `WMode.alg n P`: the WHERE clause is any pattern `P` of the algebra (BGP, Join, LeftJoin, Filter, Union, Minus, Extend,
+  Graph, Values, sub-select; expressions with comparisons, three-valued logic, bound, EXISTS), as rdflib translated and
+  annotated it, evaluated by `RV.C04.Model.evalPart` — the model of `evaluate.py` — on the dataset this model selects.
+  `RV.C04.pushdown` relates that evaluator to the bottom-up semantics `RV.C04.Spec.eval`; composed with `modify_spec`: -/
+
+/-- the solutions SPARQL 1.1 §18 gives the pattern over the dataset (bottom-up algebra, no push-down, annotations ignored) -/
+def specSolutions (d : WhereDS) (n : Nat) (P : C04.Alg) : List Binding :=
+  (C04.Spec.eval d.toC04 d.toC04.dflt (C04.Row.empty : C04.Row n) P).map rowToBinding
+
+/-- `Spec.OpDeleteInsert` does not depend on the ORDER in which the solutions are listed: over a permutation of them, a
+    re-indexed supply of fresh nodes — as injective over (solution, label) and as far beyond the counter — gives the
+    same dataset.  (The multiplicity of a solution does matter: one set of fresh nodes per occurrence.) -/
+def Statement_op_delete_insert_perm : Prop :=
+  ∀ (before : List Quad) (sols sols' : List Binding) (sk : Nat → Nat → Option Nat) (lo : Nat) (tgt : GName)
+    (del ins : List QTpl), sols.Perm sols' →
+    (∀ i l v, sk i l = some v → lo ≤ v) →
+    (∀ i j l l' v, sk i l = some v → sk j l' = some v → i = j ∧ l = l') →
+    ∃ sk' : Nat → Nat → Option Nat,
+      (∀ i l v, sk' i l = some v → lo ≤ v) ∧
+      (∀ i j l l' v, sk' i l = some v → sk' j l' = some v → i = j ∧ l = l') ∧
+      ∀ x, Spec.OpDeleteInsert before sols sk tgt del ins x ↔ Spec.OpDeleteInsert before sols' sk' tgt del ins x
+
+theorem op_delete_insert_perm : Statement_op_delete_insert_perm := by
+  intro before sols sols' sk lo tgt del ins hp hlo hinj
+  obtain ⟨π, ρ, h1, h2, h3⟩ := perm_index hp
+  refine ⟨fun i => sk (π i), fun i l v h => hlo _ l v h, ?_, ?_⟩
+  · intro i j l l' v hi hj
+    obtain ⟨e, el⟩ := hinj _ _ _ _ _ hi hj
+    refine ⟨?_, el⟩
+    rw [← h1 i, ← h1 j, e]
+  · intro x
+    unfold Spec.OpDeleteInsert
+    constructor
+    · rintro (⟨hx, hn⟩ | ⟨i, μ, hi, hd⟩)
+      · exact Or.inl ⟨hx, fun ⟨μ, hμ, hd⟩ => hn ⟨μ, hp.mem_iff.2 hμ, hd⟩⟩
+      · refine Or.inr ⟨ρ i, μ, ?_, ?_⟩
+        · rw [h3, h2]; exact hi
+        · simpa only [h2] using hd
+    · rintro (⟨hx, hn⟩ | ⟨i, μ, hi, hd⟩)
+      · exact Or.inl ⟨hx, fun ⟨μ, hμ, hd⟩ => hn ⟨μ, hp.mem_iff.1 hμ, hd⟩⟩
+      · exact Or.inr ⟨π i, μ, by rw [← h3]; exact hi, hd⟩
+
+/-- ⊢ DELETE/INSERT … WHERE P for EVERY pattern P of the algebra: the dataset afterwards is OpDeleteInsert over the
+    solutions SPARQL §18 defines for P on the state before (full strength: no condition on P beyond well-scopedness).
+    FALSE of the code as it is — where rdflib's `_vars` annotations are inexact, its binding push-down is not
+    (`RV.C04.pushdown_unconditional_witness`, known findings C04-K1 / K2 / K4) — see `modify_where_spec_partial`. -/
+def Statement_modify_where_spec : Prop :=
+  ∀ (c : Cfg) (u : Modify) (s : St) (n : Nat) (P : C04.Alg), u.wmode = .alg n P → u.flt = none →
+    s.known.Nodup → C04.WellScoped n P →
+    ∃ sk : Nat → Nat → Option Nat,
+      (∀ i l v, sk i l = some v → s.next ≤ v) ∧
+      (∀ i j l l' v, sk i l = some v → sk j l' = some v → i = j ∧ l = l') ∧
+      ∀ x, x ∈ (evalModify c u s).quads ↔
+        Spec.OpDeleteInsert s.quads (specSolutions (u.algDataset c s) n P) sk u.withG (u.del.getD []) (u.ins.getD []) x
+
+/-- … proved wherever `RV.C04.Alg.safe P` holds (decidable; evaluated by the harness on every generated pattern): the
+    model's solutions — rdflib's top-down evaluator with binding push-down, on rdflib's own annotated tree — are a
+    permutation of the §18 solutions (`RV.C04.pushdown`), and OpDeleteInsert is invariant under permutations. -/
+theorem modify_where_spec_partial (c : Cfg) (u : Modify) (s : St) (n : Nat) (P : C04.Alg)
+    (hw : u.wmode = .alg n P) (hf : u.flt = none) (hk : s.known.Nodup) (hws : C04.WellScoped n P)
+    (hsafe : P.safe = true) :
+    ∃ sk : Nat → Nat → Option Nat,
+      (∀ i l v, sk i l = some v → s.next ≤ v) ∧
+      (∀ i j l l' v, sk i l = some v → sk j l' = some v → i = j ∧ l = l') ∧
+      ∀ x, x ∈ (evalModify c u s).quads ↔
+        Spec.OpDeleteInsert s.quads (specSolutions (u.algDataset c s) n P) sk u.withG (u.del.getD []) (u.ins.getD []) x := by
+  obtain ⟨sk, h1, h2, h3⟩ := modify_spec c u s
+  have hp : (u.solutions c s).Perm (specSolutions (u.algDataset c s) n P) := by
+    rw [solutions_alg c u s hw hf]
+    exact (C04.evalPart_top n _ P (algDataset_WF c u s hk) hsafe hws _).map _
+  obtain ⟨sk', g1, g2, g3⟩ := op_delete_insert_perm s.quads _ _ sk s.next u.withG (u.del.getD []) (u.ins.getD []) hp h1 h2
+  exact ⟨sk', g1, g2, fun x => (h3 x).trans (g3 x)⟩
+
+/-- the bridge between this model's terms / bindings / datasets and those of the C04 evaluator loses nothing: the term
+    embedding has a left inverse (so it is injective: no two terms of the store are confused), a row read back as a
+    binding list binds exactly the row's variables to the row's values, and the default graph handed over has exactly
+    the triples of the selected default graph -/
+def Statement_alg_bridge_faithful : Prop :=
+  (∀ t : Term, ofC04 (toC04 t) = t) ∧
+  (∀ (n : Nat) (μ : C04.Row n) (v : Nat), blookup (rowToBinding μ) v = (μ.get v).map ofC04) ∧
+  (∀ (d : WhereDS) (t : Triple), tripleToC04 t ∈ d.toC04.dflt ↔ t ∈ d.dflt)
+
+theorem alg_bridge_faithful : Statement_alg_bridge_faithful := by
+  refine ⟨ofC04_toC04, fun n μ v => blookup_rowToBinding μ v, ?_⟩
+  intro d t
+  simp only [WhereDS.toC04]
+  exact List.mem_map_of_injective tripleToC04_injective
+
+/-- the dataset of a full-algebra WHERE clause is the one the BGP modes use (so `union_switch_reads`, `using_dataset_spec`
+    speak about it too), except that with USING / USING NAMED only the NON-EMPTY USING NAMED graphs are graphs of the
+    dataset (`QueryContext(datasetClause=…)` registers a graph by the first triple copied into it) -/
+def Statement_alg_dataset : Prop :=
+  ∀ (c : Cfg) (u : Modify) (s : St),
+    (u.using_ = [] ∧ u.named = [] → u.algDataset c s = storeDataset c s u.withG) ∧
+    (u.using_ ≠ [] ∨ u.named ≠ [] →
+      (u.algDataset c s).dflt = (usingDataset s u.using_ u.named).dflt ∧
+      ∀ g ts, (g, ts) ∈ (u.algDataset c s).named ↔
+        g ∈ u.named ∧ ts = graphTriples s.quads (some g) ∧ ts ≠ [])
+
+theorem alg_dataset : Statement_alg_dataset := by
+  intro c u s
+  constructor
+  · rintro ⟨h1, h2⟩
+    simp [Modify.algDataset, h1, h2]
+  · intro h
+    have hc : (u.using_.isEmpty && u.named.isEmpty) = false := by
+      rcases h with h | h
+      · cases hu : u.using_ with
+        | nil => exact absurd hu h
+        | cons a l => simp
+      · cases hn : u.named with
+        | nil => exact absurd hn h
+        | cons a l => simp
+    simp only [Modify.algDataset, hc, Bool.false_eq_true, if_false, WhereDS.nonEmptyNamed, true_and]
+    intro g ts
+    simp only [usingDataset, List.mem_filter, List.mem_map, mem_dedup, Prod.mk.injEq, Bool.not_eq_true',
+      List.isEmpty_eq_false_iff, ne_eq]
+    constructor
+    · rintro ⟨⟨g', hg', rfl, rfl⟩, hne⟩
+      exact ⟨hg', rfl, hne⟩
+    · rintro ⟨hg, rfl, hne⟩
+      exact ⟨⟨g, hg, rfl, rfl⟩, hne⟩
+
+/-- non-vacuity: {a p b, b p c} and `INSERT { ?0 q ?2 } WHERE { ?0 p ?1 OPTIONAL { ?1 p ?2 } }` (the tree as rdflib
+    annotates it): two solutions, the second without ?2 — one quad inserted, the other instantiation skipped -/
+def optStore : St := ⟨[(.iri 1, .iri 4, .iri 2, none), (.iri 2, .iri 4, .iri 3, none)], [], 0⟩
+def optPattern : C04.Alg :=
+  .leftJoin (.bgp [⟨.var 0, .const (.iri 4), .var 1⟩]) (.bgp [⟨.var 1, .const (.iri 4), .var 2⟩])
+    (.const (.bool true)) (some [0, 1]) (some [1, 2])
+def optModify : Modify :=
+  { withG := none, del := none, ins := some [((.var 0, .const (.iri 5), .var 2), .dflt)],
+    using_ := [], named := [], where_ := [], flt := none, wmode := .alg 3 optPattern }
+
+example : optPattern.safe = true ∧ C04.WellScoped 3 optPattern := by
+  refine ⟨by decide, ?_⟩
+  intro v hv
+  simp [optPattern, C04.Alg.allVars, C04.TP.vars, C04.Pos.vars, C04.Expr.vars] at hv
+  omega
+example : optModify.solutions plainGraph optStore =
+    [[(0, .iri 1), (1, .iri 2), (2, .iri 3)], [(0, .iri 2), (1, .iri 3)]] := by decide +kernel
+example : (evalModify plainGraph optModify optStore).quads =
+    [(.iri 1, .iri 4, .iri 2, none), (.iri 2, .iri 4, .iri 3, none), (.iri 1, .iri 5, .iri 3, none)] := by decide +kernel
+
+/-- witness that the full-strength statement fails for the code as it is (known finding C04-K2, `RV.C04.k2Pattern`):
+    `INSERT { ?0 q c } WHERE { VALUES ?0 { a b } OPTIONAL { ?0 p ?1 } }` on {a p c}.  §18 keeps the row ?0 = b (OPTIONAL does not
+    eliminate), so (b q c) must be inserted; `_vars` of the VALUES block is empty, the evaluator's re-check drops that row,
+    and nothing is inserted for it. -/
+def k2Store : St := ⟨[(.iri 1, .iri 4, .iri 3, none)], [], 0⟩
+def k2Pattern : C04.Alg :=
+  .leftJoin (.values [0] [[some (.iri 1)], [some (.iri 2)]]) (.bgp [⟨.var 0, .const (.iri 4), .var 1⟩])
+    (.const (.bool true)) (some []) (some [0, 1])
+def k2Modify : Modify :=
+  { withG := none, del := none, ins := some [((.var 0, .const (.iri 5), .const (.iri 3)), .dflt)],
+    using_ := [], named := [], where_ := [], flt := none, wmode := .alg 2 k2Pattern }
+
+example : k2Pattern.safe = false := by decide
+
+theorem modify_where_spec_witness : ¬ Statement_modify_where_spec := by
+  intro h
+  have hws : C04.WellScoped 2 k2Pattern := by
+    intro v hv
+    simp [k2Pattern, C04.Alg.allVars, C04.TP.vars, C04.Pos.vars, C04.Expr.vars] at hv
+    omega
+  obtain ⟨sk, _, _, h3⟩ := h plainGraph k2Modify k2Store 2 k2Pattern rfl rfl (by decide) hws
+  have hsol : (specSolutions (k2Modify.algDataset plainGraph k2Store) 2 k2Pattern)[1]? = some [(0, .iri 2)] := by
+    decide +kernel
+  have hx := (h3 (.iri 2, .iri 5, .iri 3, none)).2
+    (Or.inr ⟨1, [(0, .iri 2)], hsol, _, List.mem_singleton.2 rfl, rfl, rfl, rfl, rfl, rfl, rfl⟩)
+  revert hx
+  decide +kernel
+
+/-- the evaluator hands out no term it was not given: every solution of a WHERE clause — also of a full-algebra one, through
+    `evalPart_below`: an induction over every operator of `RV.C04.Model.evalPart` — binds terms of the dataset, constants of
+    the pattern or booleans; in particular no minted node at or above the supply counter.  So `minted_nodes_new` and
+    `prepared_update_stateless` cover requests with such WHERE clauses: `Op.wf` only asks that the text of the pattern
+    mentions no minted node (`Modify.algSpelled`), which no request text can. -/
+def Statement_alg_solutions_below : Prop :=
+  ∀ (c : Cfg) (u : Modify) (s : St), u.algSpelled → FreshInv s → ∀ μ ∈ u.solutions c s, BBelow s.next μ
+
+theorem alg_solutions_below : Statement_alg_solutions_below :=
+  fun c u _ ha h => bbelow_solutions c u ha h
+
+example : optModify.algSpelled := by
+  simp [Modify.algSpelled, optModify, optPattern, AlgSpelled, ExprSpelled, TPSpelled, PosSpelled, CSpelled]
 
 end RV.C10
